@@ -63,3 +63,15 @@ package influxql
 //@   call QuoteIdent
 //@     frame nothing
 //@   ensures [separators] (old(m.Database) != "" ==> dots == 2) && (old(m.Database) == "" && old(m.RetentionPolicy) != "" ==> dots == 1) && (old(m.Database) == "" && old(m.RetentionPolicy) == "" ==> dots == 0)
+
+// ================================================================ C19: privileges required by a statement's sources
+//@ prop C19
+// Both sides of a JOIN / UNION contribute their required privileges (the right side of a join must not be
+// readable without READ on its database).
+//@ func Sources.RequiredPrivileges
+//@   ghost k int = 0
+//@   call append with sources
+//@     requires [both_sides_checked] len(arg1) == 1 && (k == 0 ==> arg1[0] == source.LSrc) && (k == 1 ==> arg1[0] == source.RSrc)
+//@     set k = (k + 1) % 2
+//@   loop 1
+//@     invariant k == 0
